@@ -1650,12 +1650,12 @@ def _ordered_merge(left: DataFrame,
                     left_on_fields[0], right_on_fields[0], left_result, right_result,
                     invalid, rdtype=npdtype)
             else:
-                ops.generate_ordered_map_to_inner_right_unique_streamed(
+                ops.generate_ordered_map_to_inner_left_unique_streamed(
                     left_on_fields[0], right_on_fields[0], left_result, right_result,
                     invalid, rdtype=npdtype)
         else:
             if right_keys_unique:
-                ops.generate_ordered_map_to_inner_left_unique_streamed(
+                ops.generate_ordered_map_to_inner_right_unique_streamed(
                     left_on_fields[0], right_on_fields[0], left_result, right_result,
                     invalid, rdtype=npdtype)
             else:
